@@ -21,6 +21,7 @@ import Knee.Model.PipelineFull
 import Knee.Model.PipelineCfgM
 import Knee.Model.Neighbourhood
 import Knee.Model.Knees2
+import Knee.Model.EvalTrace
 /-
 Correspondence driver.  `lake env lean --run Driver.lean` (or the compiled `driver` exe).
 Harness → driver : `CALL <fn> <arg> <arg> …`
@@ -639,6 +640,58 @@ def dispatch (out inp : IO.FS.Stream) (fn : String) (args : List String) : M Str
     match mapIndex a sigma b with
     | some r => pure (showNats r ++ " " ++ showNats (b.map (searchLeft a sigma)))
     | none => pure ("none " ++ showNats (b.map (searchLeft a sigma)))
+  | "acc_trace", [xs, ys, knees, coefs] =>
+    -- evaluation.accuracy_trace; `coefs` = the per-gap lf.linear_r2 values (oracle, one per knee), or `exact` for the Layer-N r2
+    let xs ← orErr (parseList? parseRat? xs) "xs"
+    let ys ← orErr (parseList? parseRat? ys) "ys"
+    let knees ← orErr (parseList? parseNat? knees) "knees"
+    let so := fun (o : Option Rat) => match o with | some v => showRat v | none => "none"
+    let sl := fun (o : Option (List Rat)) => match o with | some v => showList showRat v | none => "none"
+    let coef ← (if coefs == "exact" then pure (coefQ xs ys) else do
+      let cs ← orErr (parseList? parseRat? coefs) "coefs"
+      let tbl := (gapsOf knees).zip cs
+      pure (fun l r => lookupPair tbl l r) : M (Nat → Nat → Rat))
+    match accTrace coef xs ys knees with
+    | none => pure "raise"
+    | some r => pure (s!"{so r.avgX} {so r.avgY} {so r.avgSlope} {so r.avgCoef} {so r.cost} "
+        ++ s!"{sl (accNormX xs knees)} {sl (accNormX ys knees)} {sl (accNormSlopes xs ys knees)} {sl (accNormCoefs coef knees)} {sl (accP coef xs ys knees)} "
+        ++ showList showRat (gapCoefs coef knees))
+  | "rank_corners", [xs, knees] =>
+    let xs ← orErr (parseList? parseRat? xs) "xs"
+    let knees ← orErr (parseList? parseNat? knees) "knees"
+    match rankCornersQ xs knees with
+    | none => pure "raise"
+    | some r => pure (showList showRat r)
+  | "dist2sim", [v] =>
+    let v ← orErr (parseList? parseRat? v) "v"
+    pure (showList showRat (dist2sim v))
+  | "hv_res", [xs, ys] =>
+    let xs ← orErr (parseList? parseRat? xs) "xs"
+    let ys ← orErr (parseList? parseRat? ys) "ys"
+    pure (showRat (hvResQ xs ys) ++ " " ++ showRat (resFit xs ys) ++ " " ++ showRat (resFit ys xs))
+  | "fit_transform", [xs, ys, vertical] =>
+    let xs ← orErr (parseList? parseRat? xs) "xs"
+    let ys ← orErr (parseList? parseRat? ys) "ys"
+    if vertical == "1" then
+      let r := fitTransformVQ xs ys
+      pure ((if resFit xs ys ≤ resFit ys xs then "y" else "x") ++ " " ++ showList showRat r.1 ++ " " ++ showList showRat r.2)
+    else pure (showList showRat (fitTransformQ xs ys))
+  | "cost_coef", [kind, xs, ys, coef, largs, lvals] =>
+    -- rdp.compute_cost_coef; the logarithm (RMSLE only) is a table `largs[i] ↦ lvals[i]` supplied by the harness
+    let xs ← orErr (parseList? parseRat? xs) "xs"
+    let ys ← orErr (parseList? parseRat? ys) "ys"
+    let c ← pt2 coef
+    let la ← orErr (parseList? parseRat? largs) "largs"
+    let lv ← orErr (parseList? parseRat? lvals) "lvals"
+    let tbl := la.zip lv
+    let lg := fun (q : Rat) => ((tbl.find? fun e => e.1 == q).map (·.2)).getD 0
+    pure (showRat (costCoefQ lg (parseKind kind) xs ys c))
+  | "angle_arg", [m1, m2] =>
+    let m1 ← orErr (parseRat? m1) "m1"
+    let m2 ← orErr (parseRat? m2) "m2"
+    match angleArg m1 m2 with
+    | none => pure "none"
+    | some a => pure (showRat a)
   | _, _ => throw s!"unknown call {fn}/{args.length}"
 
 partial def loop (out inp : IO.FS.Stream) : IO Unit := do
